@@ -26,17 +26,19 @@ Local Ltac zbool :=
 
 (* case split on which quantities a table lists for the transport at hand *)
 Local Ltac sites_cases :=
+  cbv beta iota zeta;
   repeat match goal with
-  | |- context [has ?q ?S] => let E := fresh "Hhas" in destruct (has q S) eqn:E
-  | H : context [has ?q ?S] |- _ => let E := fresh "Hhas" in destruct (has q S) eqn:E
+  | |- context [has ?q ?S] => destruct (has q S)
   end.
 
-Local Ltac crunch :=
+Local Ltac crunch_step :=
   cbn [andb orb negb rejected is_process] in *; zbool;
   cbn [andb orb negb rejected is_process] in *;
   try discriminate; try reflexivity; try lia;
   repeat match goal with H : Some _ = Some _ |- _ => injection H as H end;
-  subst; try discriminate; try reflexivity; try lia.
+  subst.
+
+Local Ltac crunch := repeat (progress crunch_step); try discriminate; try reflexivity; try lia.
 
 (* ================================================================================ *)
 (* level A, for every table of comparison sites                                      *)
@@ -106,8 +108,9 @@ Lemma processed_at_limit (sites : site_table) tr max decl sent :
 Proof.
   intros Ht Hs. unfold admission, over.
   destruct tr; destruct decl as [d|]; cbn [truthful framed content_length] in *;
-    try discriminate; zbool; subst; sites_cases; cbn [andb orb]; zbool;
-    try (split; reflexivity); try lia.
+    try discriminate; zbool; subst; try discriminate; sites_cases; cbn [andb orb]; zbool;
+    cbn [andb orb]; try (split; reflexivity); try lia;
+    try (assert (sent = 0) by lia; subst; split; reflexivity).
 Qed.
 
 Lemma processed_log sites tr max decl sent valid :
@@ -306,6 +309,10 @@ Lemma tcp_unix_same sites max decl sent :
 Proof. intros H. unfold admission. rewrite H. reflexivity. Qed.
 
 (* the reject frame the server writes is what the client turns into ErrRequestEntityTooLarge *)
+Lemma too_large_text_spelling :
+  too_large_text = String.list_byte_of_string "Request entity too large".
+Proof. reflexivity. Qed.
+
 Lemma too_large_text_length : List.length too_large_text = 24%nat.
 Proof. reflexivity. Qed.
 
@@ -317,7 +324,8 @@ Proof.
   rewrite <- (sock_make_header_length (Z.of_nat (List.length too_large_text)) (Z.lor i (-2147483648))) at 1.
   rewrite read_exact_app.
   rewrite sock_roundtrip_error by (rewrite ?too_large_text_length; lia).
-  unfold is_reject. cbn [negb]. rewrite !andb_false_r. rewrite Nat2Z.id.
+  unfold is_reject. change (Z.of_nat (List.length too_large_text) =? 0) with false. cbn [andb negb].
+  rewrite Nat2Z.id.
   rewrite <- (app_nil_r too_large_text) at 2. rewrite read_exact_app. cbn [negb].
   cbn [client_decode]. rewrite bytes_eqb_refl. reflexivity.
 Qed.
@@ -389,8 +397,7 @@ Proof.
   destruct (len >? max) eqn:Em; cbn [snd]; [discriminate|].
   intros H. injection H as _ <-. rewrite copy_fresh_length.
   rewrite Z.gtb_ltb in Em. apply Z.ltb_ge in Em.
-  destruct (Z.le_gt_cases 0 len); [rewrite Z2Nat.id by lia; left; exact Em|].
-  destruct (Z.le_gt_cases 0 max); [left; rewrite Z2Nat_neg by lia; exact H0|right; lia].
+  lia.
 Qed.
 
 (* byte-level witness: limit 10, one datagram of 8 + 100 bytes announcing 5 *)
@@ -407,13 +414,13 @@ Proof.
   intros Hi. unfold udp_client, udp_client_recv, udp_reject_dgram, udp_step.
   set (hd := udp_make_header (Z.of_nat (List.length too_large_text)) (Z.lor i 32768)).
   assert (Hhd : List.length hd = 8%nat) by reflexivity.
-  rewrite udp_read_into_fits by (rewrite app_length, udp_zero_buffer_length, Hhd; vm_compute; lia).
+  rewrite udp_read_into_fits by (rewrite app_length, udp_zero_buffer_length, Hhd, too_large_text_length; unfold UDP_BUFFER; lia).
   rewrite app_length, Hhd. destruct (Nat.ltb_spec (8 + List.length too_large_text) 8) as [|_]; [lia|].
   rewrite <- app_assoc.
   assert (F : forall x, firstn 8 (hd ++ x) = hd) by (intros x; rewrite <- Hhd; apply firstn_app_exact).
   assert (K : forall x, skipn 8 (hd ++ x) = x) by (intros x; rewrite <- Hhd; apply skipn_app_exact).
   rewrite F, K. subst hd. rewrite udp_roundtrip_error by (rewrite ?too_large_text_length; lia).
-  unfold is_reject. cbn [negb snd]. rewrite !andb_false_r. cbn [snd].
+  unfold is_reject. change (Z.of_nat (List.length too_large_text) =? 0) with false. cbn [andb negb snd].
   rewrite Nat2Z.id, copy_fresh_exact. cbn [client_decode]. rewrite bytes_eqb_refl. reflexivity.
 Qed.
 
@@ -425,16 +432,61 @@ Lemma http_refines max decl (wire : list byte) :
   admission pinned_sites NetHttp max decl (Z.of_nat (List.length wire)).
 Proof.
   intros Hd. unfold http_server_verdict, http_server_recv, http_read_all, admission, over.
-  cbn [pinned_sites has existsb quantity_eqb orb andb]. rewrite andb_false_l.
+  cbn [pinned_sites has existsb quantity_eqb orb andb].
   destruct decl as [d|]; cbn [content_length http_yield].
   - destruct (d >? max); [reflexivity|].
     destruct (d >? 0) eqn:E0; cbn [fst].
     + rewrite copy_fresh_length, Z2Nat.id by lia. reflexivity.
     + rewrite Z.gtb_ltb in E0. apply Z.ltb_ge in E0. assert (d = 0) by lia. subst d. reflexivity.
-  - destruct (-1 >? max); [reflexivity|]. reflexivity.
+  - destruct (-1 >? max); [reflexivity|]. change (-1 >? 0) with false. cbn [fst]. reflexivity.
 Qed.
 
 (* ---- non-vacuity helpers ---- *)
 Lemma frames_at_limit_delivered max fs : Forall (wf_frame (Server max)) fs ->
   recv_frames (Server max) (List.concat (map frame_of fs)) = (fs, EndEOF).
 Proof. apply stream_framing. Qed.
+
+(* ---- end to end: oversize request -> refused -> the caller's error ---- *)
+Lemma oversize_end_to_end (sites : site_table) tr max decl sent n valid :
+  covers tr (sites tr) = true -> framed tr decl sent = Some n -> n > max ->
+  snd (serve sites tr max decl sent valid) = [] /\
+  client_decode (reply_of (admission sites tr max decl sent)) = OTooLarge.
+Proof.
+  intros Hc Hf Hn. pose proof (never_processed_covered sites tr max decl sent n Hc Hf Hn) as R.
+  split; [apply rejected_log_empty; exact R|apply caller_sees_too_large; exact R].
+Qed.
+
+Lemma oversize_end_to_end_partial tr max decl sent n valid :
+  pinned_guard tr decl sent = true -> framed tr decl sent = Some n -> n > max ->
+  snd (serve pinned_sites tr max decl sent valid) = [] /\
+  client_decode (reply_of (admission pinned_sites tr max decl sent)) = OTooLarge.
+Proof.
+  intros Hg Hf Hn. pose proof (never_processed_partial tr max decl sent n Hg Hf Hn) as R.
+  split; [apply rejected_log_empty; exact R|apply caller_sees_too_large; exact R].
+Qed.
+
+(* the socket server, byte level: a header announcing more than the limit is answered with the
+   error frame before a single body byte is read, whatever follows it *)
+Lemma sock_oversize_bytes max d i rest :
+  0 <= d < 2147483648 -> 0 <= i < 2147483648 -> d > max ->
+  recv_frames (Server max) (sock_make_header d i ++ rest) = ([], EndTooLarge i).
+Proof.
+  intros Hd Hi Hm. unfold recv_frames.
+  remember (List.length (sock_make_header d i ++ rest)) as fuel eqn:Hfuel. clear Hfuel.
+  cbn [recv_loop].
+  rewrite <- (sock_make_header_length d i) at 1. rewrite read_exact_app.
+  rewrite sock_roundtrip by lia.
+  unfold is_reject. cbn [negb]. rewrite !andb_false_r.
+  destruct (Z.gtb_spec d max); [reflexivity|lia].
+Qed.
+
+(* guard of the partial theorem is met by everything the library's own clients send *)
+Lemma truthful_in_guard tr decl sent :
+  truthful tr decl sent = true -> decl <> None \/ ~ In tr [NetHttp; FastHttp] ->
+  pinned_guard tr decl sent = true.
+Proof.
+  intros Ht Hd. destruct tr; destruct decl as [d|]; cbn [truthful pinned_guard] in *; try reflexivity;
+    try discriminate;
+    try (destruct Hd as [Hd|Hd]; [contradiction|exfalso; apply Hd; cbn; auto]).
+  apply Z.eqb_eq in Ht. subst. apply Z.leb_refl.
+Qed.
